@@ -181,9 +181,12 @@ int cp_ghpe_dec(bn_t m, const bn_t c, const bn_t pub, const bn_t prv,
 				/* t2 = t2 * i mod n^j. */
 				bn_mul(v, v, i);
 				bn_mod(v, v, t);
-				/* t1 = t1 - t2 * n^(k-1)/k! mod n^j. */
-				bn_mul(x, v, l);
-				bn_div_dig(x, x, fk);
+				/* t1 = t1 - t2 * n^(k-1)/k! mod n^j, dividing modulo n^j. */
+				bn_set_dig(x, fk);
+				bn_mod_inv(x, x, t);
+				bn_mul(x, x, v);
+				bn_mod(x, x, t);
+				bn_mul(x, x, l);
 				bn_mod(x, x, t);
 				bn_sub(u, u, x);
 				while (bn_sign(u) == RLC_NEG) {
